@@ -35,9 +35,9 @@ CODEVARIANT = "{}"      # the variant of the transcription describing /repo toda
 
 # ------------------------------------------------------------------------------------------- M
 def mc(ctx, name, dim, rasters, sels, cats="<<>>", variant="{}", mut="none", expect="ok", inv=None):
-    return ctx.model_check("Crosstab", dict(spec="Spec", invariants=inv or INV, constants=dict(
-        DIM=dim, Rasters=R(rasters), CATS=R(cats), Selections=R(sels), VARIANT=R(variant), MUT=mut)),
-        name, expect=expect)
+    cfg = dict(spec="Spec", invariants=inv or INV, constants=dict(
+        DIM=dim, Rasters=R(rasters), CATS=R(cats), Selections=R(sels), VARIANT=R(variant), MUT=mut))
+    return U.checked_mc(ctx, "Crosstab", cfg, name, expect)
 
 
 def model_checks(ctx):
@@ -46,7 +46,7 @@ def model_checks(ctx):
     both = '{"count", "percentage"}'
     benign = ('Sels({NONE, 1}, {AllReq, [all |-> FALSE, ids |-> <<2, 6>>], [all |-> FALSE, ids |-> <<4, 14>>]}, '
               '{AllReq, [all |-> FALSE, ids |-> <<2, 7, 0, 1>>]}, %s)' % both)
-    benign_small = 'Sels({NONE}, {AllReq, [all |-> FALSE, ids |-> <<2, 6>>]}, {AllReq}, %s)' % both
+    benign_small = 'Sels({NONE}, {AllReq, [all |-> FALSE, ids |-> <<2, 6>>]}, {AllReq}, {"percentage"})'
     every_list = ('(Sels({1}, {AllReq}, Reqs(%s), %s) \\cup Sels({NONE}, Reqs(%s), {AllReq}, {"count"}) \\cup '
                   'Sels({NONE}, Reqs({<<6, 2>>, <<4>>, <<14, 6, 4>>}), Reqs({<<1>>, <<2, 0>>, <<7, 2>>}), %s))'
                   % (lc, both, lz, both))
@@ -399,15 +399,18 @@ def scope_check(ctx, jobs, n, zalpha, valpha, layers, name):
         raise core.MachineryError("replayed enumeration %s is not the complete scope: %s" % (name, set(v.values())))
 
 
-def replay(ctx):
-    blob = json.load(open(ctx.replay))
-    cases = core.run_jobs("zonal_worker", [blob["case"]], nproc=1)
+def replay(ctx, rec):
+    """re-run exactly the recorded case through the real code and the judge"""
+    job = rec["case"] if "fn" in rec["case"] else rec["case"]["job"]
+    cases = core.run_jobs("zonal_worker", [job], nproc=1)
     U.check_worker(cases)
     fails = U.Failures(ctx)
     good = [c for c in cases if "error" not in c]
     v = ctx.judge("Crosstab_Judge", [U.strip(c) for c in good], name="replay",
                   constants=dict(CODEVARIANT=R(CODEVARIANT)))
     handle(ctx, fails, cases, v if good else {}, "replay")
+    ctx.sample({"replayed": rec.get("clause"), "key": rec.get("key"),
+                "verdict": v.get(0) if good else cases[0].get("error")})
     print("REPLAY verdict: %s" % (v.get(0) if good else cases[0].get("error")), flush=True)
     fails.report()
 
@@ -427,8 +430,6 @@ def run(ctx):
         "3-D min / max over an empty valid set raises in NumPy: outside the domain (DESIGN C04), counted in "
         "outside_domain_empty_min_max",
     ]
-    if ctx.replay:
-        return replay(ctx)
     if not os.environ.get("VERIF_DEV_SKIP_M"):      # development switch only
         model_checks(ctx)
     fails = U.Failures(ctx)
